@@ -28,6 +28,8 @@ type Case struct {
 	// PrevRect, when its size is non-zero: the Renderer was pointed at this
 	// rectangle (and drew a path there) before being re-pointed to Rect.
 	PrevRect [4]int `json:"prev_rect,omitempty"`
+	// PrevViewBox: the viewBox of that earlier use (zero size = the same viewBox).
+	PrevViewBox [4]ops.F32 `json:"prev_viewbox,omitempty"`
 }
 
 const eps32 = 1.0 / (1 << 23)
@@ -44,7 +46,11 @@ func checkGeometry(c Case) error {
 	if c.PrevRect[2] > 0 && c.PrevRect[3] > 0 {
 		// an earlier use of the same Renderer with another target
 		z.SetRasterizer(&rast.Recorder{NoLattice: true}, image.Rect(c.PrevRect[0], c.PrevRect[1], c.PrevRect[0]+c.PrevRect[2], c.PrevRect[1]+c.PrevRect[3]))
-		z.Reset(gen.VB(vb), ivg.DefaultPalette)
+		pvb := vb
+		if c.PrevViewBox[2] > c.PrevViewBox[0] && c.PrevViewBox[3] > c.PrevViewBox[1] {
+			pvb = [4]float32{float32(c.PrevViewBox[0]), float32(c.PrevViewBox[1]), float32(c.PrevViewBox[2]), float32(c.PrevViewBox[3])}
+		}
+		z.Reset(gen.VB(pvb), ivg.DefaultPalette)
 		z.StartPath(0, 1, 1)
 		z.AbsLineTo(2, 3)
 		z.AbsQuadTo(4, 5, 6, 7)
@@ -169,6 +175,18 @@ func genCase(t *rapid.T) Case {
 	case 1: // re-pointed to any other rectangle
 		c.PrevRect = [4]int{rapid.IntRange(-50, 200).Draw(t, "px"), rapid.IntRange(-50, 200).Draw(t, "py"), rapid.IntRange(1, 600).Draw(t, "pw"), rapid.IntRange(1, 600).Draw(t, "ph")}
 	}
+	if c.PrevRect[2] > 0 {
+		switch rapid.IntRange(0, 2).Draw(t, "prevvb") {
+		case 0: // same size, origin shifted by whole units: same scale, other bias
+			dx, dy := float32(rapid.IntRange(-40, 40).Draw(t, "pvdx")), float32(rapid.IntRange(-40, 40).Draw(t, "pvdy"))
+			c.PrevViewBox = [4]ops.F32{c.ViewBox[0] + ops.F32(dx), c.ViewBox[1] + ops.F32(dy), c.ViewBox[2] + ops.F32(dx), c.ViewBox[3] + ops.F32(dy)}
+		case 1:
+			pv := gen.ViewBox(t, "pvb", false)
+			if pv[2]-pv[0] < 5000 && pv[3]-pv[1] > 0.01 {
+				c.PrevViewBox = [4]ops.F32{ops.F32(pv[0]), ops.F32(pv[1]), ops.F32(pv[2]), ops.F32(pv[3])}
+			}
+		}
+	}
 	num := func(t *rapid.T, l string) float32 { return gen.Moderate(t, l, 200) }
 	np := rapid.IntRange(1, 3).Draw(t, "paths")
 	for p := 0; p < np; p++ {
@@ -226,6 +244,9 @@ func classify(c Case) (bool, []string) {
 	}
 	if c.PrevRect[2] > 0 {
 		labels = append(labels, "renderer-re-pointed")
+		if c.PrevViewBox[2] > c.PrevViewBox[0] {
+			labels = append(labels, "earlier-use-had-another-viewbox")
+		}
 		if c.PrevRect[2] == c.Rect[2] && c.PrevRect[3] == c.Rect[3] && (c.PrevRect[0] != c.Rect[0] || c.PrevRect[1] != c.Rect[1]) {
 			labels = append(labels, "re-pointed-same-size-other-origin")
 		}
